@@ -10,22 +10,47 @@
        ParseError::new holds;
      - ParseError::new designates a line of the input, the column range lies
        inside that line, and its usize subtraction cannot underflow.
-   Not proved: termination is modelled by fuel (8 * len + 16 recursion steps);
-   that this fuel always suffices is checked by the correspondence run (the
-   model would answer `fuel`), and stack usage is a run-time matter checked by
-   the deep-nesting / long-chain stress cases - hence [_partial]. *)
+     - parsing terminates: the recursion fuel the model hands to the descent
+       (8 * length + 16 steps) always suffices, because every recursive call
+       works on a strictly shorter input or belongs to a chain of at most five
+       calls on the same input (Proofs/FuelProofs.v).
+   [C05_total] puts these together: every input yields an AST with the whole
+   input consumed, or an error whose span lies inside the input.
+   Not expressible in the model: the native stack the real parser uses; it is
+   checked by the size-stress run (stack needed must not grow with the input). *)
 From Coq Require Import List ZArith NArith Bool.
 From WF Require Import Base.Bytes Lang.Types Lang.Ast Spec.Typing Parse.Lex Parse.Parser
-     Proofs.ParserProofs Proofs.ParserClosed Run.Lang.
+     Proofs.ParserProofs Proofs.ParserClosed Proofs.FuelProofs Run.Lang.
 Import ListNotations.
 
-Definition C05_full : Prop :=
-  forall sch st text,
-    (exists e, parse_filter sch st text = LOk e [])
-    \/ (exists k at_ n, parse_filter sch st text = LErr k at_ n /\
-          suffix at_ (trim text) /\ (n <= List.length at_)%nat).
+Definition total {A} (text : bytes) (r : lres A) : Prop :=
+  (exists e, r = LOk e [])
+  \/ (exists k at_ n, r = LErr k at_ n /\ suffix at_ (trim text) /\ (n <= List.length at_)%nat /\
+                       (span_abs_start text at_ + n <= List.length text)%nat).
 
-Theorem C05_parse_never_panics_partial : forall sch st text,
+Theorem C05_total : forall sch st text,
+  total text (parse_filter sch st text) /\ total text (parse_value sch st text).
+Proof.
+  intros sch st text. split.
+  - pose proof (parse_filter_post sch st text) as P. pose proof (parse_filter_terminates sch st text) as T.
+    destruct (parse_filter sch st text) as [e rest|k at_ n| |]; cbn in P.
+    + left. destruct P as [_ ->]. eauto.
+    + right. destruct P as [P1 P2]. exists k, at_, n. repeat split; auto. now apply span_offsets_inside.
+    + contradiction.
+    + contradiction.
+  - pose proof (parse_value_post sch st text) as P. pose proof (parse_value_terminates sch st text) as T.
+    destruct (parse_value sch st text) as [e rest|k at_ n| |]; cbn in P.
+    + left. destruct P as [_ ->]. eauto.
+    + right. destruct P as [P1 P2]. exists k, at_, n. repeat split; auto. now apply span_offsets_inside.
+    + contradiction.
+    + contradiction.
+Qed.
+
+Theorem C05_parse_terminates : forall sch st text,
+  parse_filter sch st text <> LFuel /\ parse_value sch st text <> LFuel.
+Proof. intros sch st text. split; [apply parse_filter_terminates|apply parse_value_terminates]. Qed.
+
+Theorem C05_parse_never_panics : forall sch st text,
   parse_filter sch st text <> LPanic /\ parse_value sch st text <> LPanic.
 Proof.
   intros sch st text. split; intros H.
@@ -57,5 +82,5 @@ Theorem C05_error_position_well_formed : forall orig abs len,
     match find_nl (skipn (List.length pre) orig) 0 with Some e => (col <= e)%nat | None => True end.
 Proof. exact parse_error_new_spec. Qed.
 
-Check C05_parse_never_panics_partial : forall sch st text,
+Check C05_parse_never_panics : forall sch st text,
   parse_filter sch st text <> LPanic /\ parse_value sch st text <> LPanic.
